@@ -429,7 +429,9 @@ pub fn feed(c: &mut Case, b: Bld, xs: &[usize], u: usize, d: &dyn Fn() -> String
                     }
                 }
                 Bld::Extend => {
-                    let r = catch(|| efb.extend(xs.iter().copied()));
+                    // through an iterator whose size_hint is legal but inexact
+                    let mode = (n % 6) as u8;
+                    let r = catch(|| efb.extend(suxmon::gen::HintIter::new(xs.iter().copied(), n, mode)));
                     if let Err(m) = r {
                         c.fail("extend", "panic", &m, &format!("extend(all {} values) panicked; {}", n, d()));
                         return None;
